@@ -809,24 +809,35 @@ def analyze(ctx, want):
         else:
             fn = wp[0]
             ctx.analysed_fn(fn)
-            cls = F.closures_of(fn)
-            ok_struct = False
+            # wherever the extended match is built (in next itself or in a closure handed to Option::map): its start position
+            # is position(start of the match), its end position is position(end of the match), token type and span are
+            # those of the match; the order in which the two positions are computed does not matter
+            n_new = 0
+            ok_struct = True
             det = ""
-            for c in cls:
+            for c in [fn] + list(F.closures_of(fn)):
                 ex, paths = run_fn(c, F, Model())
                 for p in ret_paths(paths):
-                    pc = p.calls(r"PositionProvider>::position$")
-                    me = p.calls(r"MatchExt::new$")
-                    if len(pc) == 2 and len(me) == 1:
-                        a0, a1 = S.vstr(pc[0][3][1]), S.vstr(pc[1][3][1])
-                        ok_struct = "Match::start" in a0 and "Match::end" in a1 and me[0][3][2] == pc[0][4] and me[0][3][3] == pc[1][4]
-                        det = "start_position=position(%s), end_position=position(%s)" % (a0, a1)
-            ob("C09.e", "with_positions:positions-of-start-and-end-offsets", ok_struct, det or "closure structure not recognised", fn.loc())
+                    pcs = p.calls(r"PositionProvider>::position$")
+                    for me in p.calls(r"MatchExt::new$"):
+                        n_new += 1
+                        def pos_of(v):
+                            for pc in pcs:
+                                if pc[4] == v:
+                                    return S.fstr(pc[3][1])
+                            return None
+                        a0, a1 = pos_of(me[3][2]), pos_of(me[3][3])
+                        good = a0 is not None and a1 is not None and re.search(r"Match::start\(|span\.start$", a0) is not None and re.search(r"Match::end\(|span\.end$", a1) is not None \
+                            and re.search(r"Match::token_type\(|\.token_type$", S.fstr(me[3][0])) is not None and re.search(r"Match::span\(|\.span$", S.fstr(me[3][1])) is not None
+                        if not good:
+                            ok_struct = False
+                        det = "MatchExt::new(%s, %s, position(%s), position(%s))" % (S.fstr(me[3][0])[:40], S.fstr(me[3][1])[:40], a0, a1)
+            ob("C09.e", "with_positions:positions-of-start-and-end-offsets", ok_struct and n_new >= 1, det or "no MatchExt::new call found in WithPositions::next", fn.loc())
             ex, paths = run_fn(fn, F, Model())
             for p in ret_paths(paths):
                 nx = p.calls(r"iter::Iterator>::next$")
                 ok = len(nx) == 1 and "self.iter" in S.vstr(nx[0][3][0])
-                ob("C09.e", "with_positions:next-then-map", ok, "calls %s" % [M.short_name(x[2]) for x in p.calls(".")], fn.loc())
+                ob("C09.e", "with_positions:one-token-taken-from-the-wrapped-iterator", ok, "calls %s" % [M.short_name(x[2]) for x in p.calls(".")], fn.loc())
 
 
 def col_ok(col, idx, delta):
